@@ -309,8 +309,11 @@ class Array:
         else:
             if isinstance(iterable, str):
                 raise TypeError("Can't extend an Array with a str.")
+            # Create all the new data first, so that an item that doesn't fit leaves the Array unchanged.
+            new_data = BitArray()
             for item in iterable:
-                self.data += self._create_element(item)
+                new_data += self._create_element(item)
+            self.data += new_data
 
     def insert(self, i: int, x: ElementType) -> None:
         """Insert a new element into the Array at position i.
